@@ -25,8 +25,9 @@ import (
 type kase struct {
 	Chain []string `json:"chain"`
 	Req   struct {
-		Key  string `json:"key"`
-		Body string `json:"body"`
+		Key   string `json:"key"`
+		Body  string `json:"body"`
+		Shape string `json:"shape"`
 	} `json:"req"`
 }
 
@@ -155,8 +156,21 @@ func main() {
 			if k.Req.Body == "big" {
 				size = 100
 			}
-			req := httptest.NewRequest("POST", "http://helios.test/x", bytes.NewReader(bytes.Repeat([]byte("a"), size)))
+			method := map[string]string{"options": "OPTIONS", "preflight": "OPTIONS", "upgrade": "GET", "head": "HEAD", "delete": "DELETE"}[k.Req.Shape]
+			if method == "" {
+				method = "POST"
+			}
+			req := httptest.NewRequest(method, "http://helios.test/x", bytes.NewReader(bytes.Repeat([]byte("a"), size)))
 			req.RemoteAddr = "10.0.0.1:40000"
+			switch k.Req.Shape {
+			case "preflight":
+				req.Header.Set("Origin", "https://app.example")
+				req.Header.Set("Access-Control-Request-Method", "POST")
+				req.Header.Set("Access-Control-Request-Headers", "x-api-key")
+			case "upgrade":
+				req.Header.Set("Connection", "Upgrade")
+				req.Header.Set("Upgrade", "websocket")
+			}
 			switch k.Req.Key {
 			case "ok":
 				req.Header.Set("X-API-Key", "k1")
